@@ -989,15 +989,27 @@ func uvar(n uint64) []byte {
 func hostileSizes(c *explore.Ctx) {
 	p := protos[c.Choose(3)]
 	field := c.Choose(8) // which field of T1 carries the hostile size
-	sizes := []int64{-1, -2147483648, 2147483647, 1 << 20, 1 << 16, 3, 1 << 40, 1 << 28}
+	sizes := []int64{-1, -2147483648, 2147483647, 1 << 20, 1 << 16, 3, 1 << 40, 1 << 28, 1 << 29, 1 << 30, 1<<29 + 1, 1<<30 + 1, 1<<27 + 3}
 	size := sizes[c.Choose(len(sizes))]
-	avail := c.Choose(4) // bytes of payload actually present after the header: 0, 2, 64, 70000 (more than one read chunk)
-	payload := bytes.Repeat([]byte{1}, []int{0, 2, 64, 70000}[avail])
+	// item types announced by the sender: the declared ones, or other ones (the items are then skipped, in
+	// bulk or one by one); and the field carrying them: the declared one, or an id the target does not declare
+	alts := []struct {
+		name     string
+		bin, cmp byte
+	}{{"", 0, 0}, {"bool", 2, 2}, {"i8", 3, 3}, {"i16", 6, 4}, {"i32", 8, 5}, {"i64", 10, 6}, {"double", 4, 7}, {"binary", 11, 8}, {"struct", 12, 12}, {"list", 15, 9}}
+	alt := alts[c.Choose(len(alts))]
+	unknown := c.Choose(2) == 1
+	avail := c.Choose(5) // bytes of payload actually present after the header: 0, 2, 64, 70000 (more than one read chunk)
+	fill := byte(1 - c.Choose(2)) // the bytes present are 01s, or 00s (which read as stop fields / empty items once the decoder has lost its place)
+	payload := bytes.Repeat([]byte{fill}, []int{0, 1, 2, 64, 70000}[avail])
 	var in []byte
 	name := []string{"list<i32>", "binary", "string", "map<string,i32>", "set<i32>", "list<struct>", "list<list<i64>>", "list<bool>"}[field]
 	bin := p != spec.Compact
 	hdr := func(binType, cmpType byte) {
 		id := byte(field + 1)
+		if unknown {
+			id = 12
+		}
 		if bin {
 			in = append(in, binType, 0, id)
 		} else {
@@ -1005,6 +1017,9 @@ func hostileSizes(c *explore.Ctx) {
 		}
 	}
 	listHdr := func(binElem, cmpElem byte) {
+		if alt.name != "" {
+			binElem, cmpElem = alt.bin, alt.cmp
+		}
 		if bin {
 			in = append(append(in, binElem), be32(size)...)
 		} else {
@@ -1027,10 +1042,14 @@ func hostileSizes(c *explore.Ctx) {
 		}
 	case 3:
 		hdr(13, 11)
+		bk, bv, ck, cv := byte(11), byte(8), byte(8), byte(5)
+		if alt.name != "" {
+			bk, bv, ck, cv = alt.bin, alt.bin, alt.cmp, alt.cmp
+		}
 		if bin {
-			in = append(append(in, 11, 8), be32(size)...)
+			in = append(append(in, bk, bv), be32(size)...)
 		} else {
-			in = append(append(in, uvar(uint64(size))...), 0x85)
+			in = append(append(in, uvar(uint64(size))...), ck<<4|cv)
 		}
 	case 4:
 		hdr(14, 10)
@@ -1046,9 +1065,22 @@ func hostileSizes(c *explore.Ctx) {
 		listHdr(2, 2)
 	}
 	in = append(in, payload...)
+	if (field == 1 || field == 2) && alt.name != "" {
+		return // strings and binaries have no item type
+	}
+	if alt.name != "" {
+		name += " sent with " + alt.name + " items"
+	}
+	if unknown {
+		name += " in an undeclared field"
+	}
 	_, err, ok := decode(c, p, reflect.TypeOf(T1{}), in, false, "hostile-size:"+name)
 	// the claimed count can never be satisfied by the bytes present (size > len(payload) for every case but size=3 with 64 bytes, which is excluded from the must-fail set)
-	mustFail := size < 0 || size > int64(len(payload))
+	eff := size
+	if bin {
+		eff = int64(int32(uint32(size))) // the binary protocol carries 32 bits: 2^40 is written as 0
+	}
+	mustFail := eff < 0 || eff > int64(len(payload))
 	if ok && mustFail && err == nil {
 		c.Fail("hostile-size:accepted:"+proto3(p)+":"+name, "%s with claimed size %d and %d payload bytes: Unmarshal(% x) returns nil error", name, size, len(payload), trunc(in))
 	}
@@ -1079,7 +1111,7 @@ func Spec() *explore.Spec {
 			{Name: "mismatch-alloc", ShardDepth: 2, Body: mismatchAlloc, Doc: "10..60000 map headers with mismatching key/value types, each announcing 1024 entries, inside a list: error, allocation within the bound"},
 			{Name: "embedded-targets", ShardDepth: 2, Body: embeddedTargets, Doc: "5 targets with embedded structs (pointer to an unexported / exported struct, unexported struct by value, unions whose members sit in an embedded pointer) x 4 field selections x 3 protocols: no panic; the value (or, where the embedded pointer cannot be set, an error); a decoded member is not lost"},
 			{Name: "union", ShardDepth: 2, Body: unionFamily, Doc: "a struct with a `thrift:\",union\"` field: each member (or none) x an unknown field of every thrift type, or a declared field with another wire type (non-strict), placed before / after / around the member: the member and the union interface keep their values"},
-			{Name: "hostile-sizes", ShardDepth: 2, Body: hostileSizes, Doc: "list/set/map/binary/string sizes replaced by {-1, MinInt32, MaxInt32, 2^20, 2^16, 3, 2^40, 2^28} with 0/2/64/70000 payload bytes present: error, no panic, allocation within 1 MiB + 1024 x len(input)"},
+			{Name: "hostile-sizes", ShardDepth: 2, Body: hostileSizes, Doc: "list/set/map/binary/string sizes replaced by {-1, MinInt32, MaxInt32, 2^20, 2^16, 3, 2^40, 2^27+3, 2^28, 2^29, 2^29+1, 2^30, 2^30+1} with 0/1/2/64/70000 payload bytes (01s or 00s) present, the items announced with the declared or with each of 9 other types (then skipped), in the declared field or in an undeclared one: error, no panic, allocation within 1 MiB + 1024 x len(input)"},
 		},
 		Rule: "exhaustive short inputs per Reader method and complete truncation / corruption / insertion / substitution sets per valid encoding; distinct non-trivial = distinct (type, value, protocol) or (protocol, method) blocks",
 		Assumptions: []string{
